@@ -3,6 +3,7 @@ import os
 from lib import Case, hx, doc_case, unhx
 import xmlcanon
 
+DOC_MODEL = True     # every generated document also runs through the composed Coq model of the whole transform
 RULE = ('two-sided boundary documents: for L in {1,2,3,5,17,100,1000} and each limit (loop-limit for count / while / until / for, '
         'var-limit, depth-limit through nested g / reuse chains / containers / if / loop bodies) documents asking for L-1, L, L+1 (and a '
         'few beyond), limits set through the configuration and through <config>; flat documents of 10..5000 siblings of every element '
